@@ -131,12 +131,37 @@ def new_node(rng, name, avail, opid=None, kinds=None, p_obs=None, allow_kw=True,
 
 
 def gen_spec(rng, nmin=3, nmax=12):
+    if rng.random() < 0.08:
+        return gen_wide_spec(rng)
     n = int(rng.integers(nmin, nmax + 1))
     spec, names = [], []
     # node names are drawn so that alphabetical order differs from creation order
     labels = ['n%02d' % i for i in rng.permutation(n)]
     for i in range(n):
         nd = new_node(rng, labels[i], list(names))
+        spec.append(nd)
+        names.append(nd['name'])
+    return spec
+
+
+def gen_wide_spec(rng):
+    """A graph with a node of 11-14 positional parents (argument order beyond one digit) plus a few ordinary nodes."""
+    k = int(rng.integers(11, 15))
+    n = k + int(rng.integers(2, 5))
+    labels = ['n%02d' % i for i in rng.permutation(n)]
+    spec, names = [], []
+    for i in range(k):
+        nd = new_node(rng, labels[i], list(names[-3:]), kinds=['const', 'op', 'prior', 'const'], allow_kw=False)
+        spec.append(nd)
+        names.append(nd['name'])
+    kind = str(rng.choice(['op', 'sim', 'summary', 'disc']))
+    parents = [str(x) for x in rng.permutation(names)[:k]]
+    wide = {'name': labels[k], 'kind': kind, 'pos': parents, 'kw': {}, 'obs': bool(kind in OBSERVABLE and rng.random() < 0.7), 'meta': False,
+            'tol': False, 'opid': 'f_' + labels[k]}
+    spec.append(wide)
+    names.append(wide['name'])
+    for i in range(k + 1, n):
+        nd = new_node(rng, labels[i], list(names[-4:]))
         spec.append(nd)
         names.append(nd['name'])
     return spec
